@@ -246,6 +246,41 @@ func checkC08(c *Check) {
 		allInstrs(cons, func(in ssa.Instruction) {
 			if cl, ok := in.(*ssa.Call); ok && (callName(&cl.Call) == "regexp.Compile" || callName(&cl.Call) == "regexp/syntax.Parse") && vFieldNamed("Regex")(cl.Call.Args[0]) {
 				own = true
+				// … for every expression: no iteration moves on to the next parameter without it (a shortcut such
+				// as "no '(' inside, nothing to count" loses the stand-alone validation)
+				var from ssa.Instruction
+				cur := strip(cl.Call.Args[0])
+				for i := 0; i < 8 && from == nil; i++ {
+					switch x := cur.(type) {
+					case *ssa.UnOp:
+						cur = x.X
+					case *ssa.FieldAddr:
+						cur = x.X
+					case *ssa.IndexAddr:
+						from = x
+					case *ssa.Alloc:
+						// the loop's copy of the element: the store that fills it in this iteration
+						for _, r := range referrers(x) {
+							if st, isSt := r.(*ssa.Store); isSt && st.Addr == ssa.Value(x) && st.Block().Dominates(cl.Block()) {
+								from = st
+							}
+						}
+						i = 8
+					default:
+						i = 8
+					}
+				}
+				if from != nil {
+					fb := from.Block()
+					target := func(x ssa.Instruction) bool {
+						b := x.Block()
+						return b != fb && b.Dominates(fb) && len(b.Instrs) > 0 && b.Instrs[0] == x
+					}
+					if x, path := (Query{Fn: cons, Avoid: isInstr(cl)}).After(from, target); x != nil {
+						own = false
+						c.Bad(p.FuncKey(cons)+":compiles-each-expression:always", p.Pos(cl.Pos()), "an iteration over the parameters can move on without compiling the expression on its own: text that only compiles once spliced into the segment pattern (a trailing backslash, a stray ')') is accepted", blockPath(path))
+					}
+				}
 			}
 		})
 		c.Cond(own, p.FuncKey(cons)+":compiles-each-expression", p.FuncPos(cons), "regexp.Compile(*p.Value.Regex) for every parameter", "user expressions are no longer compiled individually: an expression that does not compile on its own can be accepted once wrapped (and group counting falls back to guessing)")
@@ -347,6 +382,10 @@ func checkC08(c *Check) {
 	// ---- R11 the text that is validated is the text the user wrote
 	c.Rule("R11", "shared with C11 (R2)", "Route hands groupPath(outer→inner) + routePath to the parser unchanged: a rewrite of the text before parsing (collapsing, trimming, replacing) hides empty inner segments and other grammar violations from the only place that rejects them", 3)
 	c.Share("C11", []string{"R2"}, 3)
+
+	// ---- R12 every piece of a method list is checked
+	c.Rule("R12", "shared with C11 (R6)", "Routes hands every entry of a comma list (also an empty one, e.g. after a trailing comma) to Route, where unknown methods are refused", 1)
+	c.Share("C11", []string{"R6"}, 1)
 
 	// ---- R6 root typestate
 	c.Rule("R6", "E3 nil-typestate", "the segment of a tree that may be the root (parent == nil) is used only where getParent() != nil has been established", 1)
